@@ -37,6 +37,7 @@ type Stim struct {
 	KeepAlive  bool  `json:"keepAlive"`
 	MaxRetries int   `json:"maxRetries"`
 	Events     []Evt `json:"events"`
+	Srv        bool  `json:"srv"` // also against a real udp server on a loopback socket
 }
 
 type Obs struct {
@@ -320,5 +321,8 @@ func Run(stimPath, out string) {
 		wr.Put(runBare(st))
 		wr.Put(runUDP(st))
 		wr.Put(runTCP(st))
+		if st.Srv {
+			wr.Put(runUDPServer(st))
+		}
 	}
 }
